@@ -67,11 +67,12 @@ type c16Entry struct {
 }
 
 type c16Op struct {
-	Kind    string     `json:"kind"` // commit | fetch | delete
+	Kind    string     `json:"kind"`            // commit | fetch | delete | create
+	Coord   int        `json:"coord,omitempty"` // which of the two coordinators over the same store gets the request
 	Group   string     `json:"group,omitempty"`
 	Bad     string     `json:"bad,omitempty"` // "", "gen", "member": commit that must be rejected
 	Entries []c16Entry `json:"entries,omitempty"`
-	Topic   string     `json:"topic,omitempty"` // delete
+	Topic   string     `json:"topic,omitempty"` // delete, create
 }
 
 type c16Script struct {
@@ -100,8 +101,14 @@ func c16Has(vals []c16Val, v c16Val) bool {
 func c16Exec(store metadata.Store, sc c16Script, tolerateZero bool) (string, c16Info) {
 	var info c16Info
 	ctx := context.Background()
-	coord := NewGroupCoordinator(store, protocol.MetadataBroker{NodeID: 1, Host: "h", Port: 9092}, &CoordinatorConfig{CleanupInterval: time.Hour})
-	defer coord.Stop()
+	// two coordinator instances over the same store (a group's lease can move between brokers;
+	// the second one loads the group from the store on its first request). Joins go to the first.
+	coords := [2]*GroupCoordinator{}
+	for i := range coords {
+		coords[i] = NewGroupCoordinator(store, protocol.MetadataBroker{NodeID: int32(i + 1), Host: "h", Port: 9092}, &CoordinatorConfig{CleanupInterval: time.Hour})
+		defer coords[i].Stop()
+	}
+	coord := coords[0]
 
 	topics := make([]string, 0, len(sc.Create))
 	for name := range sc.Create {
@@ -177,7 +184,7 @@ func c16Exec(store metadata.Store, sc c16Script, tolerateZero bool) (string, c16
 				}
 				req.Topics[j].Partitions = append(req.Topics[j].Partitions, rp)
 			}
-			resp, err := coord.OffsetCommit(ctx, req)
+			resp, err := coords[op.Coord&1].OffsetCommit(ctx, req)
 			if err != nil {
 				// rejected as a whole: nothing may have been applied for a bad request;
 				// for a good one every entry may or may not be applied
@@ -238,7 +245,7 @@ func c16Exec(store metadata.Store, sc c16Script, tolerateZero bool) (string, c16
 				}
 				req.Topics[j].Partitions = append(req.Topics[j].Partitions, e.Part)
 			}
-			resp, err := coord.OffsetFetch(ctx, req)
+			resp, err := coords[op.Coord&1].OffsetFetch(ctx, req)
 			if err != nil || resp.ErrorCode != protocol.NONE {
 				info.fetchErr++
 				continue
@@ -287,6 +294,8 @@ func c16Exec(store metadata.Store, sc c16Script, tolerateZero bool) (string, c16
 					}
 				}
 			}
+		case "create":
+			_, _ = store.CreateTopic(ctx, metadata.TopicSpec{Name: op.Topic, NumPartitions: 2, ReplicationFactor: 1})
 		case "delete":
 			info.deletes++
 			_ = store.DeleteTopic(ctx, op.Topic) // success or not: only keys of this topic become unspecified
@@ -359,6 +368,8 @@ type c16Gen struct {
 	anyCollide  bool // ... of either store
 	normalize   bool // ... of a join that path-cleans / case-folds / trims the names
 	mode        string
+	recommit    bool // commit, delete+re-create the topic, commit the same value again, fetch
+	twoCoord    bool // commit via A, different commit via B, first value again via A, fetch
 	prefixFetch bool // a never-committed key whose key text is a proper prefix of a committed key's text is fetched
 	excluded    map[string]bool
 	trace       []string
@@ -477,10 +488,71 @@ func c16Generate(t *rapid.T, join func(c16Key) string, knownAlias string, etcd b
 	offGen := rapid.OneOf(rapid.Int64Range(0, 3), rapid.Int64Range(0, 1<<62), rapid.Just(int64(1<<63-1)))
 	metaGen := rapid.OneOf(rapid.Just(""), rapid.SampledFrom([]string{"m", "meta-1", "{\"a\":1}", "é☃", "<&> ", "\x00", " "}), c16NameGen())
 	committed := map[c16Key]bool{}
+	lastVal := map[c16Key]c16Entry{}
 	deleted := map[string]bool{}
 	nops := rapid.IntRange(2, 24).Draw(t, "nops")
 	for i := 0; i < nops; i++ {
-		kind := rapid.SampledFrom([]string{"commit", "commit", "commit", "fetch", "fetch", "fetch", "delete"}).Draw(t, "kind")
+		kind := rapid.SampledFrom([]string{"commit", "fetch", "recommit-after-recreate", "two-coordinators", "commit", "fetch", "delete", "commit", "fetch"}).Draw(t, "kind")
+		if kind == "recommit-after-recreate" || kind == "two-coordinators" {
+			// scenarios around re-committing a value a coordinator already wrote once
+			var legalKeys []c16Key
+			for _, k := range pool {
+				if c16LegalTopic.MatchString(k.Topic) && k.Topic != "." && k.Topic != ".." {
+					legalKeys = append(legalKeys, k)
+				}
+			}
+			if len(legalKeys) == 0 {
+				kind = "commit"
+			} else {
+				k := rapid.SampledFrom(legalKeys).Draw(t, "skey")
+				e := c16Entry{Topic: k.Topic, Part: k.Part, Off: offGen.Draw(t, "off"), Meta: metaGen.Draw(t, "meta")}
+				ca := rapid.IntRange(0, 1).Draw(t, "coord")
+				emit := func(op c16Op) {
+					g.script.Ops = append(g.script.Ops, op)
+					g.trace = append(g.trace, fmt.Sprintf("%s@%d %q %v %s", op.Kind, op.Coord, op.Group, op.Entries, op.Topic))
+				}
+				first := c16Op{Kind: "commit", Group: k.Group, Coord: ca, Entries: []c16Entry{e}}
+				fetch := c16Op{Kind: "fetch", Group: k.Group, Coord: rapid.IntRange(0, 1).Draw(t, "fetchcoord"), Entries: []c16Entry{{Topic: k.Topic, Part: k.Part}}}
+				if kind == "recommit-after-recreate" {
+					hit := false
+					if etcd && vfkit.Known(c16FindEtcdDel) {
+						for c := range committed {
+							if c.Topic != k.Topic && strings.Contains(c16PathJoin(c), "/offsets/"+k.Topic+"/") {
+								hit = true
+							}
+						}
+					}
+					if hit {
+						g.excluded[c16FindEtcdDel] = true
+						kind = "commit"
+					} else {
+						if _, ok := g.script.Create[k.Topic]; !ok {
+							g.script.Create[k.Topic] = 1 // created before the ops so that it can be deleted
+						}
+						emit(first)
+						emit(c16Op{Kind: "delete", Topic: k.Topic})
+						emit(c16Op{Kind: "create", Topic: k.Topic})
+						delete(deleted, k.Topic)
+						emit(first) // the very same position and metadata, acknowledged again
+						emit(fetch)
+						committed[k] = true
+						g.recommit = true
+						continue
+					}
+				} else {
+					e2 := e
+					e2.Off = offGen.Draw(t, "off2")
+					e2.Meta = metaGen.Draw(t, "meta2")
+					emit(first)
+					emit(c16Op{Kind: "commit", Group: k.Group, Coord: 1 - ca, Entries: []c16Entry{e2}})
+					emit(first)
+					emit(fetch)
+					committed[k] = true
+					g.twoCoord = true
+					continue
+				}
+			}
+		}
 		if kind == "delete" {
 			var cands []string
 			for tp := range g.script.Create {
@@ -568,6 +640,9 @@ func c16Generate(t *rapid.T, join func(c16Key) string, knownAlias string, etcd b
 			chosen = append(chosen, k)
 		}
 		op := c16Op{Kind: kind, Group: k0.Group}
+		if rapid.IntRange(0, 3).Draw(t, "second-coordinator") == 0 {
+			op.Coord = 1
+		}
 		if kind == "commit" {
 			op.Bad = rapid.SampledFrom([]string{"", "", "", "", "", "", "gen", "member"}).Draw(t, "bad")
 		}
@@ -579,14 +654,18 @@ func c16Generate(t *rapid.T, join func(c16Key) string, knownAlias string, etcd b
 				if e.Meta == "" {
 					e.NilMeta = rapid.Bool().Draw(t, "nilmeta")
 				}
+				if prev, ok := lastVal[k]; ok && rapid.IntRange(0, 2).Draw(t, "repeat-value") == 0 {
+					e.Off, e.Meta, e.NilMeta = prev.Off, prev.Meta, prev.NilMeta // idle consumer re-commits its position
+				}
 				if op.Bad == "" {
 					committed[k] = true
+					lastVal[k] = e
 				}
 			}
 			op.Entries = append(op.Entries, e)
 		}
 		g.script.Ops = append(g.script.Ops, op)
-		g.trace = append(g.trace, fmt.Sprintf("%s%s %q %v", kind, op.Bad, op.Group, op.Entries))
+		g.trace = append(g.trace, fmt.Sprintf("%s%s@%d %q %v", kind, op.Bad, op.Coord, op.Group, op.Entries))
 	}
 	return g
 }
@@ -599,6 +678,12 @@ func c16Record(st *vfkit.Stats, leg string, g c16Gen, info c16Info) {
 		st.Class("keys-colliding-under-this-store-join")
 	}
 	st.Class("mode-" + g.mode)
+	if g.recommit {
+		st.Class("recommit-same-value-after-topic-recreate")
+	}
+	if g.twoCoord {
+		st.Class("recommit-same-value-after-other-coordinator-wrote")
+	}
 	if g.prefixFetch {
 		st.Class("fetch-of-uncommitted-key-that-prefixes-a-committed-key")
 	}
